@@ -109,6 +109,13 @@ def oversize(r):
     o.append(("unref-string", 'rule a { strings: $a = "x" condition: true }'))
     o.append(("undefined-ident", "rule a { condition: nosuch.field == 1 }"))
     o.append(("fn-args", 'import "math"\nrule a { condition: math.entropy(' + ", ".join(["1"] * 200) + ") > 0 }"))
+    # a NUL byte inside a literal of every size around the lexer's 8192-byte buffer (sources given by length, not NUL-terminated)
+    for L in (100, 5000, 8180, 8190, 8200, 9000, 20000, 70000):
+        for pos in (1, L // 2):
+            body = "A" * pos + "\x00" + "B" * (L - pos)
+            o.append(("nul-in-string-%d [bytes]" % L, 'rule a { strings: $a = "%s" condition: $a }' % body))
+            o.append(("nul-in-regexp-%d [bytes]" % L, "rule a { strings: $a = /%s/ condition: $a }" % body))
+            o.append(("nul-in-include-%d [bytes]" % L, 'include "%s"\nrule a { condition: true }' % body))
     o.append(("binary", "rule a \x00\x01\xfe\xff { condition: true }"))
     o.append(("utf8-bom", "\xef\xbb\xbfrule a { condition: true }"))
     o.append(("only-comment", "/* unterminated comment rule a { condition: true }"))
@@ -157,6 +164,8 @@ def c07(res, tier, seed):
         lines += ["compiler 5", "add 5 - " + yv.hx(health_src.encode()), "compiler 6", "add 6 - " + yv.hx(health_src.encode()), "getrules 6 6", "scanner 6 6", "data 2 " + yv.hx(b"a needle"), "leakcheck"]
         for k, (kind, src) in enumerate(part):
             via = ["add", "addfile", "addfd", "addbytes"][k % 4]
+            if "[bytes]" in kind:
+                via = ["addbytes", "addfile", "addfd"][k % 3]
             lines += ["note c%d" % k, "compiler 0", "cdefine 0 i ext_i 3", "cdefine 0 s ext_s 616263", "cdefine 0 b ext_b 1", "cdefine 0 f ext_f 0.5"]
             if k % 3 == 0 or kind.endswith("[strict]"):
                 lines.append("strict 0 1")
@@ -196,6 +205,40 @@ def c07(res, tier, seed):
                 lo, hi = (a or 0), (b or 0)
                 res.violation("memory leaked by failed compilations between cases %s and %s of batch %d (%d bytes): kinds %s" % (lo, hi, ci, y - x, sorted({part[j][0].split("@")[0] for j in range(lo, min(hi + 1, len(part)))})[:12]),
                               yv.save_replay("C07", "leak_%d_%s" % (ci, hi), {"sources": [part[j][1] for j in range(lo, min(hi + 1, len(part)))]}))
+    # include directives served by the library's own include callback (real files): a directory, a device, a missing file, a file
+    # that fails to compile, a file that includes a directory - every failure with a message and a line, no descriptor left open
+    incdir = os.path.join(wd, "incfiles"); os.makedirs(incdir, exist_ok=True)
+    open(os.path.join(incdir, "good.yar"), "w").write("rule incrule { condition: true }\n")
+    open(os.path.join(incdir, "bad.yar"), "w").write("rule broken { condition: }\n")
+    open(os.path.join(incdir, "nested.yar"), "w").write('include "%s"\n' % incdir)
+    open(os.path.join(incdir, "nested_ok.yar"), "w").write('include "good.yar"\nrule n2 { condition: incrule }\n')
+    os.makedirs(os.path.join(incdir, "sub.yar"), exist_ok=True)
+    inc_cases = [("include-real-good", 'include "%s/good.yar"\nrule i { condition: incrule }' % incdir, True),
+                 ("include-real-nested-good", 'include "%s/nested_ok.yar"\nrule i { condition: n2 }' % incdir, True)]
+    for nmk, path in (("dir", incdir), ("dir-named-like-a-file", incdir + "/sub.yar"), ("root", "/"), ("device", "/dev/null"), ("procfd", "/proc/self/fd"),
+                      ("missing", incdir + "/nosuch.yar"), ("bad", incdir + "/bad.yar"), ("nested-dir", incdir + "/nested.yar"), ("empty-name", "")):
+        for rep in range(3):
+            inc_cases.append(("include-real-" + nmk, 'rule before { condition: true }\ninclude "%s"\nrule after { condition: true }' % path, False))
+    lines = ["init", "opt iterlog 0", "opt defaultinclude 1"]
+    for k, (kind, src, good) in enumerate(inc_cases * (1 if tier == "quick" else 4)):
+        lines += ["note c%d" % k, "compiler 0", "%s 0 - %s" % (["add", "addfile", "addfd", "addbytes"][k % 4], yv.hx(src.encode())), "cdestroy 0"]
+    lines += ["finalize"]
+    run = yv.run_script(exe, lines, wd, name="c07_realinc", hang=60, timeout=600)
+    if not run.complete:
+        res.violation("include directives served from real files: %s" % yv.crash_summary(run), yv.save_replay("C07", "realinc", {"crash": yv.crash_summary(run), "script": run.script_path}))
+    cur = None
+    for e in run.events:
+        if e["e"] == "Note" and e["text"].startswith("c"): cur = int(e["text"][1:])
+        elif e["e"] == "Compile" and cur is not None and "skipped" not in e:
+            kind, src, good = inc_cases[cur % len(inc_cases)]
+            errs = [d for d in e["diag"] if d["lvl"] == "error"]
+            if good and e["ret"] != 0:
+                res.violation("a valid include of a real file is rejected: %s" % json.dumps(errs)[:200], yv.save_replay("C07", "realinc_good_%d" % cur, {"source": src, "diag": errs}))
+            if not good:
+                records.append({"kind": "compile", "ret": e["ret"], "errors": e["errors"], "msgs": [len(d["msg"] or "") for d in errs], "lines": [d["line"] for d in errs]})
+                owners.append((kind, src, e["ret"], [d["msg"] for d in errs][:3]))
+            res.count(1, src)
+    res.cov["parts"]["includes_of_real_files"] = len(inc_cases)
     bad, known, states = func.tlc_judge2(records, wd, "c07")
     res.cov["states"] += states; res.cov["transitions"] += states
     res.cov["traces_validated_against_impl"] += len(records) - len(bad)
